@@ -9,12 +9,10 @@ From V Require Import base.Prelude base.Strs gen.Tables model.Cfg model.Names mo
   proofs.ConfigProofs.
 Local Open Scope string_scope.
 
-Definition nl : string := String "010" "".
-
 Fixpoint all_ws (s : string) : bool :=
   match s with EmptyString => true | String c s' => is_ws c && all_ws s' end.
-Fixpoint no_nl (s : string) : bool :=
-  match s with EmptyString => true | String c s' => negb (Ascii.eqb c "010") && no_nl s' end.
+Fixpoint no_nl (s : string) : bool :=     (* no line-break character *)
+  match s with EmptyString => true | String c s' => negb (is_linebreak c) && no_nl s' end.
 (** neither starts nor ends with white space, and is not empty *)
 Definition tight (s : string) : bool :=
   str_nonempty s && negb (first_is_ws s) && negb (first_is_ws (rev_str s "")).
@@ -39,7 +37,11 @@ Definition raw_ok (r : raw) : bool :=
 Definition erase (r : raw) : list cline :=
   match r with RHdr k _ => [(false, k)] | RBody _ b _ => [(true, b)] | RNoise _ => [] end.
 
-Definition config_text (rl : list raw) : string := join nl (map raw_text rl).
+(** the text: every raw line with its own terminator (any line-break character; "\r\n" is a line ended by
+    "\r" followed by an empty noise line ended by "\n"), then a last line without terminator *)
+Definition config_text (rl : list (raw * ascii)) (last : raw) : string :=
+  fold_right (fun rc acc => raw_text (fst rc) ++ String (snd rc) acc) (raw_text last) rl.
+Definition all_raws (rl : list (raw * ascii)) (last : raw) : list raw := (map fst rl ++ [last])%list.
 
 (** * strings *)
 Lemma sapp_assoc (a b c : string) : (a ++ b) ++ c = a ++ (b ++ c).
@@ -133,29 +135,31 @@ Proof.
   apply Ascii.eqb_eq in E. subst c. vm_compute in H. discriminate.
 Qed.
 
-(** * split("\n") of a join *)
+(** * splitlines of the text *)
 Lemma sl_app a : forall s cur, no_nl a = true ->
-  split_lines_aux (a ++ s) cur = split_lines_aux s (cur ++ a).
+  splitlines_aux (a ++ s) cur = splitlines_aux s (cur ++ a).
 Proof.
   induction a as [|c a IH]; intros s cur H; cbn [append].
   - now rewrite sapp_nil_r.
   - cbn [no_nl] in H. apply andb_true_iff in H as [H1 H2]. apply negb_true_iff in H1.
-    cbn [split_lines_aux]. rewrite H1, IH by exact H2. rewrite sapp_assoc. reflexivity.
+    cbn [splitlines_aux]. rewrite H1, IH by exact H2. rewrite sapp_assoc. reflexivity.
 Qed.
 
-Lemma sl_join t : forall x cur, forallb no_nl (x :: t) = true ->
-  split_lines_aux (join nl (x :: t)) cur = (cur ++ x) :: t.
-Proof.
-  induction t as [|y t IH]; intros x cur H; cbn [forallb] in H; apply andb_true_iff in H as [Hx Ht].
-  - cbn [join]. rewrite <- (sapp_nil_r x) at 1. rewrite sl_app by exact Hx. reflexivity.
-  - change (join nl (x :: y :: t)) with (x ++ nl ++ join nl (y :: t)).
-    rewrite sl_app by exact Hx. unfold nl at 1. cbn [append split_lines_aux].
-    rewrite Ascii.eqb_refl. f_equal. rewrite IH by exact Ht. reflexivity.
-Qed.
+Definition hd_app (cur : string) (l : list string) : list string :=
+  match l with a :: t => (cur ++ a) :: t | [] => [] end.
 
-Lemma split_join ls : forallb no_nl ls = true -> ls <> [] -> split_lines (join nl ls) = ls.
+Lemma split_text rl last : forall cur,
+  forallb (fun rc => no_nl (raw_text (fst rc)) && is_linebreak (snd rc)) rl = true ->
+  no_nl (raw_text last) = true ->
+  splitlines_aux (config_text rl last) cur = hd_app cur (map raw_text (all_raws rl last)).
 Proof.
-  destruct ls as [|x t]; [congruence|]. intros H _. unfold split_lines. now rewrite sl_join.
+  unfold all_raws. induction rl as [|[r c] rl IH]; intros cur H HL; cbn [config_text fold_right map app fst snd hd_app].
+  - rewrite <- (sapp_nil_r (raw_text last)) at 1. rewrite sl_app by exact HL. reflexivity.
+  - cbn [forallb fst snd] in H. apply andb_true_iff in H as [H1 H2]. apply andb_true_iff in H1 as [Hr Hc].
+    rewrite sl_app by exact Hr. cbn [splitlines_aux]. rewrite Hc. f_equal.
+    fold (config_text rl last). rewrite IH by auto.
+    destruct (map raw_text (map fst rl ++ [last])%list) as [|x t] eqn:E; [|reflexivity].
+    destruct rl; discriminate.
 Qed.
 
 Lemma no_nl_app a b : no_nl (a ++ b) = no_nl a && no_nl b.
@@ -235,22 +239,22 @@ Qed.
 Definition header_first (ls : list cline) : Prop :=
   match ls with [] => True | l :: _ => fst l = false end.
 
-Theorem config_lines_raw rl :
-  forallb raw_ok rl = true -> header_first (flat_map erase rl) ->
-  config_lines (config_text rl) = flat_map erase rl.
+Theorem config_lines_raw rl last :
+  forallb raw_ok (all_raws rl last) = true -> forallb is_linebreak (map snd rl) = true ->
+  header_first (flat_map erase (all_raws rl last)) ->
+  config_lines (config_text rl last) = flat_map erase (all_raws rl last).
 Proof.
-  intros OK HF. unfold config_lines, config_text.
-  assert (E : filter (fun s => str_nonempty s && negb (starts_with "!" s))
-                (map rstrip_ws (split_lines (join nl (map raw_text rl)))) = flat_map kept rl).
-  { destruct rl as [|r rl].
-    - reflexivity.
-    - rewrite split_join.
-      + now apply (filter_flat (r :: rl)).
-      + rewrite forallb_forall. intros s Hs. apply in_map_iff in Hs as (r' & <- & Hr').
-        apply raw_no_nl. rewrite forallb_forall in OK. now apply OK.
-      + discriminate. }
-  rewrite E. pose proof (cline_flat rl OK) as C.
-  destruct (flat_map kept rl) as [|l0 rest]; [exact C|]. cbn [map] in C. rewrite <- C in HF |- *.
+  intros OK LB HF. unfold config_lines.
+  assert (S : splitlines (config_text rl last) = map raw_text (all_raws rl last)).
+  { unfold splitlines. rewrite split_text.
+    - unfold all_raws. destruct (map fst rl ++ [last])%list eqn:E; [destruct rl; discriminate|reflexivity].
+    - rewrite forallb_forall. intros [r c] Hin. cbn [fst snd]. apply andb_true_iff. split.
+      + apply raw_no_nl. rewrite forallb_forall in OK. apply OK. unfold all_raws. apply in_or_app. left.
+        apply in_map_iff. now exists (r, c).
+      + rewrite forallb_forall in LB. apply LB. apply in_map_iff. now exists (r, c).
+    - apply raw_no_nl. rewrite forallb_forall in OK. apply OK. unfold all_raws. apply in_or_app. right. now left. }
+  rewrite S, filter_flat by exact OK. pose proof (cline_flat _ OK) as C.
+  destruct (flat_map kept (all_raws rl last)) as [|l0 rest]; [exact C|]. cbn [map] in C. rewrite <- C in HF |- *.
   cbn [header_first fst] in HF. rewrite HF. reflexivity.
 Qed.
 
@@ -258,28 +262,38 @@ Qed.
 Lemma lines_of_header_first secs : header_first (lines_of secs).
 Proof. destruct secs as [|[k b] t]; cbn; auto. Qed.
 
-Theorem config_text_sections secs rl :
+Theorem config_text_sections secs rl last :
   NoDup (map fst secs) -> Forall (fun s => snd s <> []) secs ->
-  forallb raw_ok rl = true -> flat_map erase rl = lines_of secs ->
-  parse_dic (config_lines (config_text rl)) = secs.
+  forallb raw_ok (all_raws rl last) = true -> forallb is_linebreak (map snd rl) = true ->
+  flat_map erase (all_raws rl last) = lines_of secs ->
+  parse_dic (config_lines (config_text rl last)) = secs.
 Proof.
-  intros ND NE OK E. rewrite config_lines_raw; auto.
+  intros ND NE OK LB E. rewrite config_lines_raw; auto.
   - rewrite E. now apply parse_dic_sections.
   - rewrite E. apply lines_of_header_first.
 Qed.
 
-(** noise lines (blank lines, comments) anywhere in the text change nothing *)
-Theorem config_text_noise r1 n r2 :
-  forallb raw_ok (r1 ++ RNoise n :: r2)%list = true -> header_first (flat_map erase (r1 ++ r2)%list) ->
-  config_lines (config_text (r1 ++ RNoise n :: r2)%list) = config_lines (config_text (r1 ++ r2)%list).
+(** noise lines (blank lines, comments) anywhere in the text, with any terminator, change nothing *)
+Theorem config_text_noise r1 n c r2 last :
+  forallb raw_ok (all_raws (r1 ++ (RNoise n, c) :: r2) last) = true ->
+  forallb is_linebreak (map snd (r1 ++ (RNoise n, c) :: r2)) = true ->
+  header_first (flat_map erase (all_raws (r1 ++ r2) last)) ->
+  config_lines (config_text (r1 ++ (RNoise n, c) :: r2) last) = config_lines (config_text (r1 ++ r2) last).
 Proof.
-  intros OK HF.
-  assert (OK' : forallb raw_ok (r1 ++ r2)%list = true).
-  { rewrite forallb_app in OK |- *. cbn [forallb] in OK.
-    apply andb_true_iff in OK as [O1 O2]. apply andb_true_iff in O2 as [_ O2]. now rewrite O1, O2. }
-  assert (EE : flat_map erase (r1 ++ RNoise n :: r2)%list = flat_map erase (r1 ++ r2)%list).
+  intros OK LB HF. unfold all_raws in *.
+  rewrite !map_app in *. cbn [map fst snd] in *.
+  assert (OK' : forallb raw_ok ((map fst r1 ++ map fst r2) ++ [last]) = true).
+  { rewrite !forallb_app in OK |- *. cbn [forallb] in OK |- *.
+    apply andb_true_iff in OK as [O1 O3]. apply andb_true_iff in O1 as [O1 O2].
+    apply andb_true_iff in O2 as [_ O2]. now rewrite O1, O2, O3. }
+  assert (LB' : forallb is_linebreak (map snd r1 ++ map snd r2) = true).
+  { rewrite !forallb_app in LB |- *. cbn [forallb] in LB.
+    apply andb_true_iff in LB as [L1 L2]. apply andb_true_iff in L2 as [_ L2]. now rewrite L1, L2. }
+  assert (EE : flat_map erase ((map fst r1 ++ RNoise n :: map fst r2) ++ [last])
+               = flat_map erase ((map fst r1 ++ map fst r2) ++ [last])).
   { rewrite !flat_map_app. reflexivity. }
-  rewrite !config_lines_raw; auto. now rewrite EE.
+  rewrite !config_lines_raw; unfold all_raws; rewrite ?map_app; cbn [map fst snd]; auto.
+  now rewrite EE.
 Qed.
 
 (** the canonical layout of sections with one indentation string per body line, and the
@@ -311,13 +325,17 @@ Proof.
   cbn [raw_ok all_ws no_nl]. now rewrite I1, I2, I3, B1, B2.
 Qed.
 
-Theorem config_text_layout ind secs :
-  str_nonempty ind = true -> all_ws ind = true -> no_nl ind = true ->
+Theorem config_text_layout ind c secs :
+  str_nonempty ind = true -> all_ws ind = true -> no_nl ind = true -> is_linebreak c = true ->
   forallb sec_ok secs = true ->
   NoDup (map fst secs) -> Forall (fun s => snd s <> []) secs ->
-  parse_dic (config_lines (config_text (layout ind secs))) = secs.
+  parse_dic (config_lines (config_text (map (fun r => (r, c)) (layout ind secs)) (RNoise ""))) = secs.
 Proof.
-  intros I1 I2 I3 OK ND NE. apply config_text_sections; auto.
-  - now apply layout_ok.
-  - apply erase_layout.
+  intros I1 I2 I3 C OK ND NE.
+  assert (F : map fst (map (fun r : raw => (r, c)) (layout ind secs)) = layout ind secs).
+  { rewrite map_map. cbn [fst]. apply map_id. }
+  apply config_text_sections; auto; unfold all_raws; rewrite ?F.
+  - rewrite forallb_app, layout_ok by auto. reflexivity.
+  - rewrite map_map. cbn [snd]. rewrite forallb_forall. intros x Hx. apply in_map_iff in Hx as (? & <- & _). exact C.
+  - rewrite flat_map_app, erase_layout. cbn. apply app_nil_r.
 Qed.
